@@ -411,6 +411,27 @@ Definition check_group (g : group) : bool := rows_ok const_y g && complete g && 
 
 Definition check_groups (gs : list group) : bool := forallb check_group gs.
 
+(** Cross-platform tables (the files of the other platforms, judged against go/types for their
+    GOOS/GOARCH): the truth is the installed release, the files target an earlier one, and
+    $GOROOT/api is silent about most platforms.  Completeness is therefore demanded up to a
+    regenerated list [drift] of truth objects (coq/gen/BindXDrift_gen.v: declared by the installed
+    source, no api record for the platform, absent from both releases of the table).  Rows and
+    wrappers are decided without exception. *)
+Definition nmem (x : N) (l : list N) : bool := exb (N.eqb x) l.
+
+Definition no_api (t : tobj) : bool := match t_api t with ANone => true | AKnown _ _ => false end.
+
+Definition obj_complete_upto (drift : list N) (g : group) (tp : tpkg) (t : tobj) : bool :=
+  if obj_complete g tp t then true else if no_api t then nmem (t_id t) drift else false.
+
+Definition complete_upto (drift : list N) (g : group) : bool :=
+  negb (g_complete g) || forallb (fun tp => forallb (obj_complete_upto drift g tp) (tp_objs tp)) (g_truth g).
+
+Definition check_xgroup (drift : list N) (g : group) : bool :=
+  rows_ok const_y g && complete_upto drift g && forwards g.
+
+Definition check_xgroups (drift : list N) (gs : list group) : bool := forallb (check_xgroup drift) gs.
+
 (** rows outside the float region denote their object exactly (G) *)
 Definition rows_ok_g_outside (g : group) : bool :=
   forallb (fun f => forallb (fun r => row_region g r || row_ok const_g g f r) (f_rows f)) (g_files g).
